@@ -318,6 +318,10 @@ func judge(o *run.Outcome, cs c04case, b *baseline, pr *world.Pair, at *mitm) {
 		switch {
 		case tgt.Type == hsHelloVerifyRequest && mu.Field == "server_version":
 			carve = "hvr-server-version"
+		case tgt.Type == hsHelloVerifyRequest && mu.Field == "cookie":
+			// not carved out: the cookie is outside the transcript but bound by its echo — the server accepts
+			// a second ClientHello only with exactly the cookie it issued (retry.go
+			// ValidateHelloVerifyRequestResponse), so an altered cookie must not lead to completion either
 		case tgt.Type == hsHelloVerifyRequest:
 			carve = "hvr"
 		case tgt.Type == hsClientHello && tgt.Seq == 0 && at.sawHVR:
